@@ -2,12 +2,15 @@
 #include "../runtime/data.h"
 #include "../runtime/type.h"
 #include "../runtime/value.h"
+#include "../runtime/d_array.h"
 
 #include <string>
 #include <memory>
 #include <unordered_map>
 #include <functional>
 #include <sstream>
+#include <algorithm>
+#include <vector>
 
 
 namespace sqf
@@ -84,6 +87,43 @@ namespace sqf
         };
     }
 
+    namespace types
+    {
+        /// <summary>
+        /// Tests whether the container target can be reached from the value provided, following
+        /// the elements of arrays and the keys and values of hashmaps.
+        /// Inserting such a value into target would make target contain itself.
+        /// </summary>
+        inline bool reaches_container(const sqf::runtime::value& from, const sqf::runtime::data* target, std::vector<const sqf::runtime::data*>& visited)
+        {
+            if (from.empty()) { return false; }
+            auto raw = from.data().get();
+            if (raw == target) { return true; }
+            if (!from.is<sqf::runtime::t_array>() && !from.is<sqf::runtime::t_hashmap>()) { return false; }
+            if (std::find(visited.begin(), visited.end(), raw) != visited.end()) { return false; }
+            visited.push_back(raw);
+            if (from.is<sqf::runtime::t_array>())
+            {
+                for (auto& it : *from.data<d_array>())
+                {
+                    if (reaches_container(it, target, visited)) { return true; }
+                }
+            }
+            else
+            {
+                for (auto& it : from.data<d_hashmap>()->map())
+                {
+                    if (reaches_container(it.first, target, visited) || reaches_container(it.second, target, visited)) { return true; }
+                }
+            }
+            return false;
+        }
+        inline bool reaches_container(const sqf::runtime::value& from, const sqf::runtime::data* target)
+        {
+            std::vector<const sqf::runtime::data*> visited;
+            return reaches_container(from, target, visited);
+        }
+    }
     namespace operators
     {
         void ops_hashmap(::sqf::runtime::runtime& runtime);
